@@ -237,6 +237,28 @@ theorem C10_fail_is_final (c : RtCtx) (hcl : c.M.failClosed c.semOpts = true)
   have hf := (apiStep_good c hcl hempty _ op hbo hg').2 hfail
   exact runOps_of_failed c after _ hf hd
 
+/-- `start()` leaves a good state (machines passing `startClosed`) -/
+theorem start_good (c : RtCtx) (hst : c.startClosed = true) (σ0 : CState) : c.Good (c.start σ0).1.state := by
+  left
+  simp only [RtCtx.start]
+  rw [runTree_eq_run_nil]
+  simp only
+  have hmem := run_mem_paths (c.oracle true (c.initStore σ0)) c.startTree []
+  simp only [RtCtx.startClosed, List.all_eq_true] at hst
+  have hleaf := hst _ hmem
+  generalize (c.startTree.run (c.oracle true (c.initStore σ0)) []).2 = leaf at hleaf ⊢
+  cases leaf <;> simpa using hleaf
+
+/-- **FAIL is final, for whole sessions**: `start()`, any calls, a call that reports FAIL — then
+    every later call reports FAIL. -/
+theorem C10_session_fail_is_final (c : RtCtx) (hst : c.startClosed = true)
+    (hcl : c.M.failClosed c.semOpts = true) (hempty : c.emptyFails c.M.failTarget = true) (σ0 : CState)
+    (before : List ApiOp) (op : ApiOp) (after : List ApiOp)
+    (hb : ∀ o ∈ before, o.bytesOK) (hbo : op.bytesOK) (hd : ∀ o ∈ after, o.defined c)
+    (hfail : (c.apiStep (c.runOps (c.start σ0).1 before).1 op).2.1 = "FAIL") :
+    ∀ r ∈ (c.runOps (c.apiStep (c.runOps (c.start σ0).1 before).1 op).1 after).2, r.1 = "FAIL" :=
+  C10_fail_is_final c hcl hempty (c.start σ0).1 (start_good c hst σ0) before op after hb hbo hd hfail
+
 /-! ### Parsers that cannot fail
 
   A machine without a fail state and without `end()` has no way to report FAIL: stated for the
